@@ -1,4 +1,5 @@
 import NmVerif.NN.Views
+import NmVerif.Index.Reduce
 /-
   NN/Spec — the reference side (PyTorch documentation formulas), written as directly as possible.
 -/
@@ -80,5 +81,13 @@ def lineOf (s : Shape) (ax : Nat) (i : Idx) : List Idx :=
 /-- the block of `i` over the trailing axes `m ..`: the first `m` coordinates of `i` followed by every index of the
     trailing extents, row-major -/
 def blockOf (s : Shape) (m : Nat) (i : Idx) : List Idx := (allIdx (s.drop m)).map fun r => i.take m ++ r
+
+/-- the normalised value at `i` given the group `G` of `i`: `S = Σ_G x`, `μ = S/|G|`, `V = Σ_G |x − μ|²`,
+    `(x[i] − μ) / sqrt(V/|G| + eps)`; `none` only for an empty group -/
+def normAt (add sub div : α → α → α) (sqabs sqrt : α → α) (divn : α → Nat → α) (eps : α) (x : Idx → α) (G : List Idx)
+    (i : Idx) : Option α :=
+  (Reduce.foldFirst add none (G.map x)).bind fun S =>
+    (Reduce.foldFirst add none (G.map fun k => sqabs (sub (x k) (divn S G.length)))).map fun V =>
+      div (sub (x i) (divn S G.length)) (sqrt (add (divn V G.length) eps))
 
 end NmVerif.NN
